@@ -245,6 +245,116 @@ class Repo:
         those or of the attribute itself): their truthiness is `len(x) > 0`."""
         return self._typed_texts("seq")
 
+    def class_seq_attrs(self, cls: "ClassInfo") -> set:
+        """Texts `self.<name>` that hold a list / dict / text in every object that runs the methods of `cls` (cls itself or
+        a subclass): every store `self.<name> = E` in the class cone has E sequence-valued - a display, a comprehension,
+        list()/dict()/sorted()/..., or a call `self.m(...)` whose implementation in that class (and in every subclass
+        that overrides it) returns such expressions on all paths."""
+        cache = self.__dict__.setdefault("_class_seq_attrs", {})
+        if cls.qualname in cache:
+            return cache[cls.qualname]
+
+        def seq_expr(e) -> bool:
+            if isinstance(e, (ast.List, ast.Dict, ast.ListComp, ast.DictComp, ast.JoinedStr, ast.Set, ast.SetComp)):
+                return True
+            if isinstance(e, ast.Constant):
+                return isinstance(e.value, (str, bytes))
+            return isinstance(e, ast.Call) and isinstance(e.func, ast.Name) and e.func.id in ("list", "dict", "bytes", "bytearray", "str", "set", "sorted")
+
+        def method_returns_seq(owner: "ClassInfo", name: str) -> bool:
+            m = owner.find_method(name)
+            if m is None:
+                return False
+            rets = [x for x in walk_no_nested(m.node) if isinstance(x, ast.Return)]
+
+            def local_seq(name: str) -> bool:
+                """A local every binding of which in this method is a sequence-valued expression (a list built up and returned)."""
+                binds = [x for x in walk_no_nested(m.node) if isinstance(x, (ast.Assign, ast.AnnAssign, ast.AugAssign, ast.For, ast.With, ast.NamedExpr, ast.comprehension))]
+                vals = []
+                for b in binds:
+                    tl = b.targets if isinstance(b, ast.Assign) else [getattr(b, "target", None)] if not isinstance(b, ast.With) else [i.optional_vars for i in b.items]
+                    for t in tl:
+                        if t is None:
+                            continue
+                        for x in ast.walk(t):
+                            if isinstance(x, ast.Name) and x.id == name:
+                                vals.append(b.value if isinstance(b, (ast.Assign, ast.AnnAssign)) and x is t else None)
+                if name in [a.arg for a in m.node.args.args + m.node.args.kwonlyargs]:
+                    return False
+                return bool(vals) and all(v is not None and seq_expr(v) for v in vals)
+
+            return bool(rets) and all(r.value is not None and (seq_expr(r.value) or (isinstance(r.value, ast.Name) and local_seq(r.value.id))) for r in rets)
+
+        family = [cls] + [c for c in self.classes.values() if cls in c.mro and c is not cls]
+        stores: dict[str, list] = {}
+        for member in family:
+            for k in member.mro:
+                for m in k.methods.values():
+                    for n in ast.walk(m.node):
+                        if isinstance(n, ast.Assign):
+                            for t in n.targets:
+                                if isinstance(t, ast.Attribute) and isinstance(t.value, ast.Name) and t.value.id == "self":
+                                    stores.setdefault(t.attr, []).append((member, n.value))
+                        elif isinstance(n, (ast.AugAssign, ast.AnnAssign)) and isinstance(n.target, ast.Attribute) and isinstance(n.target.value, ast.Name) and n.target.value.id == "self":
+                            stores.setdefault(n.target.attr, []).append((member, None))
+                        elif isinstance(n, ast.Call) and isinstance(n.func, ast.Name) and n.func.id == "setattr":
+                            stores.setdefault("*", []).append((member, None))
+        out = set()
+        if "*" not in stores:
+            for attr, vals in stores.items():
+                ok = True
+                for member, e in vals:
+                    if e is not None and seq_expr(e):
+                        continue
+                    if e is not None and isinstance(e, ast.Call) and isinstance(e.func, ast.Attribute) and isinstance(e.func.value, ast.Name) and e.func.value.id == "self" and method_returns_seq(member, e.func.attr):
+                        continue
+                    ok = False
+                    break
+                if ok:
+                    out.add(f"self.{attr}")
+        cache[cls.qualname] = out
+        return out
+
+    @property
+    def str_attrs(self) -> set:
+        """Attribute names every store of which, anywhere in the package (class-level constant or `x.<name> = ...`), is a
+        text literal: their value is a str whatever object they are read from (`cls._struct_code`, `self.coding`)."""
+        if getattr(self, "_str_attrs", None) is None:
+            vals: dict[str, list] = {}
+            for mod in self.modules.values():
+                for n in ast.walk(mod.tree):
+                    if isinstance(n, ast.ClassDef):
+                        for st in n.body:
+                            if isinstance(st, ast.Assign):
+                                for t in st.targets:
+                                    if isinstance(t, ast.Name):
+                                        vals.setdefault(t.id, []).append(st.value)
+                            elif isinstance(st, ast.AnnAssign) and isinstance(st.target, ast.Name):
+                                vals.setdefault(st.target.id, []).append(st.value)
+                            elif isinstance(st, (ast.FunctionDef, ast.AsyncFunctionDef)):
+                                vals.setdefault(st.name, []).append(None)
+                    targets, value = [], None
+                    if isinstance(n, ast.Assign):
+                        targets, value = n.targets, n.value
+                    elif isinstance(n, (ast.AugAssign, ast.AnnAssign)):
+                        targets, value = [n.target], None if isinstance(n, ast.AugAssign) else n.value
+                    elif isinstance(n, (ast.For, ast.comprehension, ast.With, ast.NamedExpr, ast.Delete)):
+                        tl = [n.target] if hasattr(n, "target") else (n.targets if isinstance(n, ast.Delete) else [i.optional_vars for i in n.items if i.optional_vars is not None])
+                        for t in tl:
+                            for x in ast.walk(t):
+                                if isinstance(x, ast.Attribute):
+                                    vals.setdefault(x.attr, []).append(None)
+                        continue
+                    for t in targets:
+                        for x in ([t] if not isinstance(t, (ast.Tuple, ast.List)) else ast.walk(t)):
+                            if isinstance(x, ast.Attribute):
+                                vals.setdefault(x.attr, []).append(value if x is t else None)
+                    if isinstance(n, ast.Call) and isinstance(n.func, ast.Name) and n.func.id == "setattr":
+                        if len(n.args) >= 2 and isinstance(n.args[1], ast.Constant) and isinstance(n.args[1].value, str):
+                            vals.setdefault(n.args[1].value, []).append(None)
+            self._str_attrs = {k for k, v in vals.items() if v and all(isinstance(x, ast.Constant) and isinstance(x.value, str) for x in v)}
+        return self._str_attrs
+
     def _typed_texts(self, kind: str) -> set:
         cache = "_int_texts" if kind == "int" else "_seq_texts"
         if getattr(self, cache, None) is None:
